@@ -298,8 +298,9 @@ func ruleFileOwnership(c *eng.Ctx) {
 		}
 		n++
 		allowed := map[string]string{
-			"server.(*metadataAPI).deleteStream": "removes the deleted stream's directory after stream.Delete()",
-			"server.(*Server).Stop":              "test/cleanup paths",
+			"server.(*metadataAPI).deleteStream":     "removes the deleted stream's directory after stream.Delete()",
+			"server.(*metadataAPI).deleteStreamData": "removes the deleted stream's directory after stream.Delete() (called by deleteStream and by the reset that precedes a snapshot restore)",
+			"server.(*Server).Stop":                  "test/cleanup paths",
 		}
 		why, ok := allowed[outer]
 		c.Check(ok, s.Callee+" in "+outer, c.Pos(s.Instr), "allowed: "+why, "package server removes or renames files in "+outer+": only metadataAPI.deleteStream may touch <data>/streams")
